@@ -177,9 +177,9 @@ func Check() *core.Check {
 			}
 			fams = append(fams, likeFamily(), extLitFamily(), arityFamily(), sizesFamily())
 			if tier == "thorough" {
-				fams = append(fams, likeDeepFamily(6, 8))
+				fams = append(fams, likeDeepFamily("like-deep", []string{"a", "b"}, 6, 8), likeDeepFamily("like-deep-multibyte", []string{"a", "é", "😀"}, 5, 6))
 			} else {
-				fams = append(fams, likeDeepFamily(5, 7))
+				fams = append(fams, likeDeepFamily("like-deep", []string{"a", "b"}, 5, 7), likeDeepFamily("like-deep-multibyte", []string{"a", "é", "😀"}, 4, 5))
 			}
 			w := gen.W[:6]
 			if tier == "thorough" {
@@ -234,8 +234,11 @@ func likeFamily() *core.Family {
 
 // like, deeper: every pattern of <= 5 components over {*, a, b} against every string of
 // length <= 7 over {a, b}: backtracking matchers go wrong on the second or third star.
-func likeDeepFamily(maxComp, maxLen int) *core.Family {
-	comps := []PatElem{{Wild: true}, {Lit: "a"}, {Lit: "b"}}
+func likeDeepFamily(name string, lits []string, maxComp, maxLen int) *core.Family {
+	comps := []PatElem{{Wild: true}}
+	for _, l := range lits {
+		comps = append(comps, PatElem{Lit: l})
+	}
 	var pats [][]PatElem
 	var rec func(cur []PatElem)
 	rec = func(cur []PatElem) {
@@ -254,16 +257,17 @@ func likeDeepFamily(maxComp, maxLen int) *core.Family {
 	var recS func(cur string)
 	recS = func(cur string) {
 		strs = append(strs, cur)
-		if len(cur) == maxLen {
+		if len([]rune(cur)) == maxLen {
 			return
 		}
-		recS(cur + "a")
-		recS(cur + "b")
+		for _, l := range lits {
+			recS(cur + l)
+		}
 	}
 	recS("")
 	return &core.Family{
-		Name: "like-deep",
-		Desc: fmt.Sprintf("every like pattern of 1..%d components over {*, a, b} (%d) x every string of length <= %d over {a, b} (%d)", maxComp, len(pats), maxLen, len(strs)),
+		Name: name,
+		Desc: fmt.Sprintf("every like pattern of 1..%d components over {*} + %q (%d) x every string of <= %d characters over %q (%d); multi-byte characters make byte offsets and character offsets differ", maxComp, lits, len(pats), maxLen, lits, len(strs)),
 		N:    int64(len(pats)),
 		Run: func(t *core.T, i int64) {
 			p := pats[i]
